@@ -21,6 +21,10 @@ type gen struct {
 	noExt bool   // no x- extension attributes (the JSON rendering omits them below the top level by design)
 }
 
+// genSvc / genRes / genKey: the names of the service, the resource and the keyed-map key under test;
+// the dotted variants exercise everything that addresses the model by dotted paths.
+var genSvc, genRes, genKey = "s", "r", "k1"
+
 // genNoExt is set by a harness before genPick when extension attributes are out of its scope.
 var genNoExt bool
 
@@ -272,7 +276,16 @@ var genSites = []genSite{
 // choice has no example. PART / PARTS split the attributes over several harness entries.
 func genPick(atom, num, dur string) (site genSite, attr string, value any, ok bool) {
 	root := vrtSchemaTree()
-	g := &gen{root: root, atom: atom, num: num, dur: dur, key: "k1", noExt: genNoExt}
+	dotted := vrtParam("DOTTED", 0)
+	if dotted < 0 {
+		dotted = vrtChoice("dottedNames", 2)
+	}
+	genSvc, genRes, genKey = "s", "r", "k1"
+	if dotted == 1 {
+		genSvc, genRes, genKey = "s.x", "r.x", "k.1"
+	}
+	g := &gen{root: root, atom: atom, num: num, dur: dur, key: genKey, noExt: genNoExt}
+	genNoExt = false // one-shot: the next pick starts from the default again
 	nsites := vrtParam("SITES", len(genSites))
 	site = genSites[vrtChoice("site", nsites)]
 	defs, _ := root["definitions"].(map[string]any)
@@ -301,7 +314,7 @@ func genPick(atom, num, dur string) (site genSite, attr string, value any, ok bo
 func genDoc(site genSite, attr string, value any) map[string]any {
 	s := map[string]any{"image": "i"}
 	doc := map[string]any{
-		"services": map[string]any{"s": s, "v1": map[string]any{"image": "i"}},
+		"services": map[string]any{genSvc: s, "v1": map[string]any{"image": "i"}},
 		"networks": map[string]any{"v1": map[string]any{}},
 		"volumes":  map[string]any{"v1": map[string]any{}},
 		"secrets":  map[string]any{"v1": map[string]any{"file": "./v1"}},
@@ -317,7 +330,7 @@ func genDoc(site genSite, attr string, value any) map[string]any {
 			}
 		}
 		r[attr] = value
-		doc[site.section].(map[string]any)["r"] = r
+		doc[site.section].(map[string]any)[genRes] = r
 	}
 	return doc
 }
